@@ -504,9 +504,9 @@ ErrorCode Library::write_oas(const char* filename, double circle_tolerance,
                 if (len > string_max) string_max = len;
                 if (path->simple_path) {
                     if (path->spine.point_array.count > 1) {
-                        tmp_array.count = 0;
                         FlexPathElement* el = path->elements;
                         for (uint64_t ne = 0; ne < path->num_elements; ne++, el++) {
+                            tmp_array.count = 0;
                             ErrorCode err = path->element_center(el, tmp_array);
                             if (err != ErrorCode::NoError) error_code = err;
                             len = tmp_array.count;
@@ -536,9 +536,9 @@ ErrorCode Library::write_oas(const char* filename, double circle_tolerance,
                 if (len > string_max) string_max = len;
                 if (path->simple_path) {
                     if (path->subpath_array.count > 0) {
-                        tmp_array.count = 0;
                         RobustPathElement* el = path->elements;
                         for (uint64_t ne = 0; ne < path->num_elements; ne++, el++) {
+                            tmp_array.count = 0;
                             ErrorCode err = path->element_center(el, tmp_array);
                             if (err != ErrorCode::NoError) error_code = err;
                             len = tmp_array.count;
